@@ -490,25 +490,24 @@ def d1_entry(ctx, idx):
             if p.leaf.kind != 'ret':
                 r.violation('MatrixEntryComparer: branches', 'a path does not return a result', where)
                 continue
-            last = pos[-1] if pos and nf.equal(pos[-1], p.guards[-1]) else None
+            last = p.guards[-1] if p.guards else None
             kind = None
             frac = None
             if last is not None:
-                b = nf.match('_F == 1', last) or nf.match('_F == 1.0', last)
+                b = nf.match('_F == 1', last)
+                b0 = nf.match('_F == 0', last)
+                bp = nf.match("_C == 'proportional'", last)
+                bn = nf.match("_C != 'proportional'", last)
                 if b is not None:
                     kind, frac = 'all', b['_F']
-                else:
-                    b = nf.match('_F == 0', last)
-                    if b is not None:
-                        kind, frac = 'none', b['_F']
-                    else:
-                        b = nf.match("_C == 'proportional'", last)
-                        if b is not None and nf.config_key(b['_C']) == 'entry_partial_credit':
-                            kind = 'proportional'
-            else:
-                kind = 'flat'
+                elif b0 is not None:
+                    kind, frac = 'none', b0['_F']
+                elif bp is not None and nf.config_key(bp['_C']) == 'entry_partial_credit':
+                    kind = 'proportional'
+                elif bn is not None and nf.config_key(bn['_C']) == 'entry_partial_credit':
+                    kind = 'flat'
             if kind is None:
-                r.undecided('MatrixEntryComparer: branches', 'guard `%s` not recognised' % short(last, 80), where)
+                r.undecided('MatrixEntryComparer: branches', 'guard `%s` not recognised' % short(last, 80) if last is not None else 'none', where)
                 continue
             if frac is not None and not check_fraction(frac, where):
                 continue
@@ -549,3 +548,816 @@ def d1_entry(ctx, idx):
         missing = {'all', 'none', 'proportional', 'flat'} - seen
         if missing and not any(o.status != 'discharged' for o in r.obligations):
             r.violation('MatrixEntryComparer: branches', 'no branch for %s' % sorted(missing), fi.loc)
+
+
+# ----------------------------------------------------------------------------- D1 LinearComparer
+def d1_linear(ctx, idx):
+    r = ctx.rule('D1.LINEAR', 'LinearComparer: sample floor, zero-compatible modes, estimator table, zero detection, best configured credit', floor=13)
+    with r:
+        ci = idx.cls(LC)
+        call = idx.func(LC + '.__call__')
+        P, S, U = roles(call, 1)
+        # (a) fewer than three samples -> ConfigError
+        raises = [x for x in lib.raises_of(call.node) if nf.exc_class_name(x.exc) == 'ConfigError'
+                  or (isinstance(x.exc, ast.Name) and False)]
+        guard = None
+        for x in lib.raises_of(call.node):
+            for a in ancestors(x):
+                if isinstance(a, ast.If) and any(x is s or any(x is y for y in ast.walk(s)) for s in a.body) and 'len' in unparse(a.test):
+                    guard = (a, x)
+                    break
+        if guard is None:
+            r.violation('LinearComparer.__call__: sample floor', 'no refusal of fewer than three samples: a straight line through two '
+                        'samples always fits, so every answer would earn linear credit', call.loc, expected='if len(student_evals) < 3: raise ConfigError')
+        else:
+            a, x = guard
+            binds = {}
+            res = nf.classify(['len(_S) < 3'], a.test, binds)
+            cname = nf.exc_class_name(x.exc) if x.exc is not None else None
+            if res == nf.MATCH and (is_name(binds['_S'], S) or is_name(binds['_S'], P)):
+                r.check(cname == 'ConfigError', 'LinearComparer.__call__: sample floor', 'len < 3 -> ConfigError',
+                        'fewer than three samples raise %s instead of ConfigError' % cname, lib.loc(call, x), expected='ConfigError', found=cname)
+            elif isinstance(res, tuple):
+                r.violation('LinearComparer.__call__: sample floor', '%s: the minimum number of samples is no longer three' % res[1],
+                            lib.loc(call, a), expected='len(student_evals) < 3', found=short(a.test))
+            else:
+                r.undecided('LinearComparer.__call__: sample floor', 'guard `%s` not recognised' % short(a.test), lib.loc(call, a))
+        # (b) tables
+        k, zc = idx.lookup_attr(ci, 'zero_compatible_modes')
+        k2, am = idx.lookup_attr(ci, 'all_modes')
+        zcv, amv = nf.const_value(zc) if zc is not None else None, nf.const_value(am) if am is not None else None
+        if zcv is None or amv is None:
+            raise AnalysisError('LinearComparer: mode tables are not literals')
+        r.check(set(zcv) == {'equals', 'offset'}, 'LinearComparer.zero_compatible_modes', "('equals', 'offset')",
+                'zero_compatible_modes is %r: %s' % (zcv, 'proportional/linear credit would be awarded when one side is zero (y = 0*x fits any x)'
+                                                     if set(zcv) - {'equals', 'offset'} else 'a relation that is meaningful at zero is no longer checked'),
+                lib.mloc(ci.module, zc), expected="('equals', 'offset')", found=repr(zcv))
+        r.check(set(amv) == {'equals', 'proportional', 'offset', 'linear'}, 'LinearComparer.all_modes', 'four relations',
+                'all_modes is %r: a configured relation is never checked' % (amv,), lib.mloc(ci.module, am))
+        k3, ec = idx.lookup_attr(ci, 'error_calculators')
+        if not isinstance(ec, ast.Dict):
+            raise AnalysisError('LinearComparer.error_calculators is not a dict literal')
+        got = {}
+        for kk, vv in zip(ec.keys, ec.values):
+            if not (isinstance(kk, ast.Constant) and isinstance(vv, ast.Name)):
+                raise AnalysisError('LinearComparer.error_calculators: entry `%s` not recognised' % short(vv))
+            kind, obj = idx.resolve_name(ci.module, vv.id)
+            got[kk.value] = obj.qualname.split('.')[-1] if kind == 'func' else vv.id
+        for mode in ('equals', 'proportional', 'offset', 'linear'):
+            want = 'get_%s_fit_error' % mode
+            r.check(got.get(mode) == want, "LinearComparer.error_calculators['%s']" % mode, want,
+                    "the '%s' relation is tested with %s: credit for '%s' is awarded for a different relation" % (mode, got.get(mode), mode),
+                    lib.mloc(ci.module, ec), expected=want, found=str(got.get(mode)))
+        # (c) get_valid_modes
+        gv = idx.func(LC + '.get_valid_modes')
+        flagp = gv.params[1]
+        gpaths = ret_paths(gv)
+        for p in gpaths:
+            if p.leaf.kind != 'ret':
+                continue
+            where = lib.loc(gv, p.leaf.stmt)
+            posg = any(is_name(g, flagp) for g in p.guards)
+            negg = any(isinstance(g, ast.UnaryOp) and isinstance(g.op, ast.Not) and is_name(g.operand, flagp) for g in p.guards)
+            filt = ['tuple((_M for _M in self.modes if _M in self.zero_compatible_modes))',
+                    'tuple([_M for _M in self.modes if _M in self.zero_compatible_modes])',
+                    '[_M for _M in self.modes if _M in self.zero_compatible_modes]']
+            res = nf.classify(filt, p.leaf.expr)
+            plain = nf.match('self.modes', p.leaf.expr) is not None
+            if posg:
+                if res == nf.MATCH:
+                    r.ok('LinearComparer.get_valid_modes: comparing zero', 'only zero-compatible modes', where)
+                elif isinstance(res, tuple):
+                    r.violation('LinearComparer.get_valid_modes: comparing zero', '%s: when comparing with zero the modes kept are not the '
+                                'zero-compatible ones' % res[1], where, found=short(p.leaf.expr))
+                elif plain:
+                    r.violation('LinearComparer.get_valid_modes: comparing zero', 'all configured modes are returned although one side is zero: '
+                                'proportional/linear credit is awarded against zero', where)
+                else:
+                    r.undecided('LinearComparer.get_valid_modes: comparing zero', 'return `%s` not recognised' % short(p.leaf.expr), where)
+            elif negg:
+                if plain:
+                    r.ok('LinearComparer.get_valid_modes: ordinary case', 'all configured modes', where)
+                elif res == nf.MATCH:
+                    r.violation('LinearComparer.get_valid_modes: ordinary case', 'the zero filter is applied when neither side is zero: configured '
+                                'proportional/linear credit is never awarded', where)
+                else:
+                    r.undecided('LinearComparer.get_valid_modes: ordinary case', 'return `%s` not recognised' % short(p.leaf.expr), where)
+            else:
+                r.undecided('LinearComparer.get_valid_modes', 'path without a test of %s' % flagp, where)
+        # (d) check_comparing_zero
+        cz = idx.func(LC + '.check_comparing_zero')
+        zp, zs, zt = cz.params[0], cz.params[1], cz.params[2]
+        zpaths = [p for p in ret_paths(cz) if p.leaf.kind == 'ret']
+        if len(zpaths) != 1:
+            raise AnalysisError('check_comparing_zero: expected one returning path')
+        ze = zpaths[0].leaf.expr
+        where = lib.loc(cz, zpaths[0].leaf.stmt)
+        binds = {}
+        res = nf.classify(['all([is_nearly_zero(_X, _T, reference=_Y) for _X, _Y in zip(_S, _P)]) or all((np.all(_Z == 0.0) for [_Z] in _P))',
+                           'all((is_nearly_zero(_X, _T, reference=_Y) for _X, _Y in zip(_S, _P))) or all((np.all(_Z == 0.0) for [_Z] in _P))',
+                           'all([is_nearly_zero(_X, _T, reference=_Y) for _X, _Y in zip(_S, _P)]) or all([np.all(_Z == 0.0) for [_Z] in _P])'],
+                          ze, binds)
+        if res == nf.MATCH:
+            good = is_name(binds['_S'], zs) and is_name(binds['_P'], zp) and is_name(binds['_T'], zt)
+            r.check(good, 'LinearComparer.check_comparing_zero', 'student nearly zero in every sample, or expected exactly zero in every sample',
+                    'the zero test runs over `%s`/`%s` instead of (student, expected)' % (short(binds['_S']), short(binds['_P'])), where)
+        elif isinstance(res, tuple):
+            r.violation('LinearComparer.check_comparing_zero', '%s: zero on one side is no longer detected, so a proportional/linear fit '
+                        'against zero (which always succeeds) earns credit' % res[1], where, found=short(ze, 100))
+        else:
+            r.undecided('LinearComparer.check_comparing_zero', 'expression `%s` not recognised' % short(ze, 100), where)
+        # (e) the result: credit iff the fit error is nearly zero, best by (credit, message)
+        finals = [p for p in ret_paths(call) if p.leaf.kind == 'ret']
+        if not finals:
+            raise AnalysisError('LinearComparer.__call__: no returning path')
+        seen_expr = []
+        for p in finals:
+            e = p.leaf.expr
+            if any(nf.equal(e, x) for x in seen_expr):
+                continue
+            seen_expr.append(e)
+            where = lib.loc(call, p.leaf.stmt)
+            if not (isinstance(e, ast.Call) and nf.callee_name(e) in ('max', 'min') and e.args):
+                r.undecided('LinearComparer.__call__: selection', 'return `%s` not recognised' % short(e, 80), where)
+                continue
+            if nf.callee_name(e) == 'min':
+                r.violation('LinearComparer.__call__: selection', 'the result is the minimum over the configured relations: the smallest '
+                            'instead of the largest applicable credit is awarded', where, expected='max(results, key=...)', found='min(...)')
+                continue
+            key = lib.get_kw(e, 'key')
+            kb = None
+            if isinstance(key, ast.Lambda) and len(key.args.args) == 1:
+                an = key.args.args[0].arg
+                first = key.body.elts[0] if isinstance(key.body, ast.Tuple) and key.body.elts else key.body
+                if isinstance(first, ast.Subscript) and is_name(first.value, an) and nf.const_value(first.slice) == 'grade_decimal':
+                    kb = True
+            r.check(kb is not None, 'LinearComparer.__call__: selection', 'max by (grade_decimal, msg)',
+                    'the best result is selected with key `%s`, not by credit' % (short(key) if key is not None else 'none'), where,
+                    expected="key=lambda result: (result['grade_decimal'], result['msg'])")
+            comp = e.args[0]
+            if not isinstance(comp, (ast.ListComp, ast.GeneratorExp)) or not isinstance(comp.elt, ast.IfExp):
+                r.undecided('LinearComparer.__call__: credit rule', 'results `%s` not recognised' % short(comp, 80), where)
+                continue
+            ife = comp.elt
+            tb = nf.match('is_nearly_zero(_ERR, _U.tolerance, reference=__)', ife.test)
+            neg = False
+            if tb is None and isinstance(ife.test, ast.UnaryOp) and isinstance(ife.test.op, ast.Not):
+                tb = nf.match('is_nearly_zero(_ERR, _U.tolerance, reference=__)', ife.test.operand)
+                neg = True
+            if tb is None:
+                r.undecided('LinearComparer.__call__: credit rule', 'test `%s` not recognised' % short(ife.test, 80), where)
+                continue
+            win, lose = (ife.orelse, ife.body) if neg else (ife.body, ife.orelse)
+            dw, dl = dict_items(win), dict_items(lose)
+            if dw is None or dl is None:
+                r.undecided('LinearComparer.__call__: credit rule', 'result literals not recognised', where)
+                continue
+            gw, gl = dw.get('grade_decimal'), dl.get('grade_decimal')
+            cfg_credit = lambda g: g is not None and isinstance(g, ast.Subscript) and isinstance(g.value, ast.Attribute) and g.value.attr == 'config'
+            zero = lambda g: isinstance(g, ast.Constant) and g.value == 0
+            if cfg_credit(gw) and zero(gl):
+                r.ok('LinearComparer.__call__: credit rule', 'configured credit iff the fit error is nearly zero', where)
+            elif cfg_credit(gl) and zero(gw):
+                r.violation('LinearComparer.__call__: credit rule', 'the credit rule is inverted: a relation earns its credit when its fit error '
+                            'is NOT nearly zero', where, expected='credit if is_nearly_zero(error, ...) else 0')
+            else:
+                r.violation('LinearComparer.__call__: credit rule', 'credit `%s` when the relation holds, `%s` otherwise' %
+                            (short(gw) if gw is not None else '?', short(gl) if gl is not None else '?'), where,
+                            expected='self.config[mode] / 0')
+            # the modes compared are the filtered ones, computed from check_comparing_zero(params, student, tolerance)
+            src = unparse(comp)
+            gvc = [c for c in ast.walk(comp) if isinstance(c, ast.Call) and nf.callee_name(c) == 'get_valid_modes']
+            if not gvc:
+                r.violation('LinearComparer.__call__: mode filter', 'the relations compared are not taken from get_valid_modes: the zero '
+                            'filter is bypassed', where, expected='self.get_valid_modes(is_comparing_zero)')
+            else:
+                arg = gvc[0].args[0] if gvc[0].args else None
+                b = nf.match('self.check_comparing_zero(_P, _S, _U.tolerance)', arg) if arg is not None else None
+                if b is not None and is_name(b['_P'], P) and is_name(b['_S'], S):
+                    r.ok('LinearComparer.__call__: mode filter', 'get_valid_modes(check_comparing_zero(expected, student, tolerance))', where)
+                elif b is not None and is_name(b['_P'], S) and is_name(b['_S'], P):
+                    r.violation('LinearComparer.__call__: mode filter', 'check_comparing_zero receives (student, expected) in the wrong order: '
+                                'the exact-zero test is applied to the submission and the near-zero test to the expected value', where)
+                elif arg is not None and isinstance(arg, ast.Constant):
+                    r.violation('LinearComparer.__call__: mode filter', 'get_valid_modes is given the constant %r: zero is never/always assumed'
+                                % (arg.value,), where)
+                else:
+                    r.undecided('LinearComparer.__call__: mode filter', 'argument `%s` not recognised' % (short(arg, 80) if arg is not None else 'none'), where)
+
+
+# ----------------------------------------------------------------------------- D1 is_nearly_zero
+def d1_nearly_zero(ctx, idx):
+    r = ctx.rule('D1.NEARZERO', 'is_nearly_zero is norm(x) <= tolerance with a percentage taken relative to norm(reference)', floor=2)
+    with r:
+        fi = idx.func(NZ)
+        if len(fi.params) < 3:
+            raise AnalysisError('is_nearly_zero: signature changed')
+        X, T, R = fi.params[:3]
+        n = 0
+        for p in ret_paths(fi):
+            if p.leaf.kind != 'ret':
+                continue
+            where = lib.loc(fi, p.leaf.stmt)
+            pct = any(nf.match('isinstance(_T, str)', g) is not None for g in p.guards)
+            if pct:
+                pats = ['np.linalg.norm(_X) <= np.linalg.norm(_R) * percentage_as_number(_T)']
+                construct = 'is_nearly_zero: percentage tolerance'
+            else:
+                pats = ['np.linalg.norm(_X) <= _T']
+                construct = 'is_nearly_zero: absolute tolerance'
+            binds = {}
+            res = nf.classify(pats, p.leaf.expr, binds)
+            n += 1
+            if res == nf.MATCH:
+                good = is_name(binds['_X'], X) and is_name(binds['_T'], T) and (not pct or is_name(binds['_R'], R))
+                if good:
+                    r.ok(construct, short(p.leaf.expr), where)
+                elif pct and is_name(binds['_R'], X):
+                    r.violation(construct, 'the percentage is taken relative to norm(x) itself: every x passes a tolerance >= 100%% and the '
+                                'reference is ignored', where, expected='norm(%s) * percentage' % R, found=short(p.leaf.expr))
+                else:
+                    r.violation(construct, 'operands `%s` are not (x, tolerance, reference)' % short(p.leaf.expr), where)
+            elif isinstance(res, tuple):
+                r.violation(construct, '%s: the boundary of "nearly zero" moved' % res[1], where, expected=pats[0], found=short(p.leaf.expr))
+            else:
+                r.undecided(construct, 'decision `%s` not recognised' % short(p.leaf.expr), where)
+        if n == 0:
+            raise AnalysisError('is_nearly_zero: no returning path')
+
+
+# ----------------------------------------------------------------------------- D2 validation before comparison
+def derived_names(fn, seeds):
+    """Flow-insensitive closure: locals assigned (or iterated) from expressions that mention a seed."""
+    out = set(seeds)
+    changed = True
+    while changed:
+        changed = False
+        for n in walk_own(fn):
+            pairs = []
+            if isinstance(n, ast.Assign):
+                pairs = [(t, n.value) for t in n.targets]
+            elif isinstance(n, ast.AugAssign):
+                pairs = [(n.target, n.value)]
+            elif isinstance(n, ast.For):
+                pairs = [(n.target, n.iter)]
+            for t, v in pairs:
+                if lib.names_in(v) & out:
+                    for x in ast.walk(t):
+                        if isinstance(x, ast.Name) and x.id not in out:
+                            out.add(x.id)
+                            changed = True
+    return out
+
+
+def d2_order(ctx, idx):
+    r = ctx.rule('D2.ORDER', 'shape validation dominates every statement that combines the student value with the expected ones', floor=6)
+    with r:
+        specs = [(C + 'EqualityComparer.__call__', 1, 'validate'), (C + 'MatrixEntryComparer.__call__', 1, 'validate'),
+                 (C + 'eigenvector_comparer', 0, 'validate_shape'), (C + 'vector_span_comparer', 0, 'validate_shape'),
+                 (LC + '.__call__', 1, 'validate_shape')]
+        for q, off, vname in specs:
+            fi = idx.func(q)
+            P, S, U = roles(fi, off)
+            cfg = cfg_of(fi.node)
+            sd, pd = derived_names(fi.node, {S}), derived_names(fi.node, {P})
+            vcalls = []
+            for c in lib.calls_named(fi.node, vname):
+                if isinstance(c.func, ast.Attribute) and (vname == 'validate' or is_name(c.func.value, U)):
+                    if any(mentions(a, sd) for a in c.args):
+                        vcalls.append(c)
+            label = q.split('.comparers.')[-1].replace('comparers.', '').replace('linear_comparer.', '')
+            if not vcalls:
+                r.violation('%s: shape validation' % label, 'the submission is no longer validated against the expected shape: a wrong-shaped '
+                            'answer is compared (broadcast or shape error of another policy) instead of being reported as a shape mismatch',
+                            fi.loc, expected='%s(...) before the comparison' % vname)
+                continue
+            vnodes = [n for c in vcalls for n in lib.cfg_nodes_for(cfg, c)]
+            hasattr_edges = []
+            for n in cfg.nodes:
+                if n.kind == 'test' and isinstance(n.ast, ast.If):
+                    t = nf.canon(n.ast.test)
+                    b = nf.match("hasattr(_U, 'validate_shape')", t)
+                    if b is not None and is_name(b['_U'], U):
+                        hasattr_edges.append((n, 'false'))
+                    b = nf.match("not hasattr(_U, 'validate_shape')", t)
+                    if b is not None and is_name(b['_U'], U):
+                        hasattr_edges.append((n, 'true'))
+            reach = cfg.reach([cfg.entry], blocked=vnodes, blocked_edges=hasattr_edges)
+            combining = []
+            for n in cfg.nodes:
+                if n in vnodes or n.ast is None or n.kind not in ('stmt', 'test', 'for', 'with'):
+                    continue
+                from ..cfg import head_exprs
+                names = set()
+                for h in head_exprs(n.ast):
+                    names |= lib.names_in(h)
+                uses = set()
+                for h in head_exprs(n.ast):
+                    for x in ast.walk(h):
+                        if isinstance(x, ast.Name) and isinstance(x.ctx, ast.Load):
+                            uses.add(x.id)
+                if uses & sd and uses & pd:
+                    combining.append(n)
+            if not combining:
+                raise AnalysisError('%s: no statement combines student and expected values' % q)
+            early = [n for n in combining if n in reach]
+            if early:
+                r.violation('%s: validation before comparison' % label, '`%s` combines the submission with the expected values on a path '
+                            'that has not passed the shape validation: a wrong-shaped answer is graded (or fails with another error) '
+                            'before it can be reported as a shape mismatch' % short(early[0].ast, 90), lib.loc(fi, early[0].ast),
+                            expected='%s first' % vname)
+            else:
+                r.ok('%s: validation before comparison' % label, '%d combining statement(s) dominated by the validation' % len(combining),
+                     lib.loc(fi, vcalls[0]))
+        # MatrixEntryComparer.validate visits every sample pair
+        fi = idx.func(C + 'MatrixEntryComparer.validate')
+        E, S, U = fi.params[0], fi.params[1], fi.params[2]
+        loops = lib.loops_of(fi.node)
+        calls = lib.calls_named(fi.node, 'validate')
+        if len(loops) != 1 or not calls:
+            raise AnalysisError('MatrixEntryComparer.validate: expected one loop calling EqualityComparer.validate')
+        lp = loops[0]
+        zb = nf.match('zip(_A, _B)', lp.iter)
+        tg = lp.target
+        ok = zb is not None and isinstance(tg, ast.Tuple) and len(tg.elts) == 2 and all(isinstance(e, ast.Name) for e in tg.elts)
+        if not ok:
+            raise AnalysisError('MatrixEntryComparer.validate: loop shape not recognised')
+        first, second = tg.elts[0].id, tg.elts[1].id
+        src = {first: zb['_A'], second: zb['_B']}
+        c = calls[0]
+        a0, a1 = (c.args + [None, None])[:2]
+        good = isinstance(a0, ast.Name) and isinstance(a1, ast.Name) and a0.id in src and a1.id in src \
+            and is_name(src[a0.id], E) and is_name(src[a1.id], S)
+        r.check(good and not lib.loop_has_early_exit(lp), 'MatrixEntryComparer.validate', 'every (expected, student) sample pair is validated',
+                'the per-sample validation %s' % ('stops early' if lib.loop_has_early_exit(lp) else 'passes `%s` instead of (expected, student)' % short(c)),
+                lib.loc(fi, c))
+
+
+# ----------------------------------------------------------------------------- D3 mismatch policy
+def _alias(idx, module, name):
+    kind, obj = idx.resolve_name(module, name)
+    if kind == 'class':
+        return obj.qualname
+    if kind == 'value':
+        mod, nm = obj
+        vals = mod.assigns.get(nm, [])
+        if len(vals) == 1 and isinstance(vals[0], (ast.Name, ast.Attribute)):
+            return _alias(idx, mod, unparse(vals[0]).split('.')[-1])
+    return name
+
+
+def switch_key(g):
+    k = nf.config_key(g)
+    if k is not None:
+        return k
+    if isinstance(g, ast.Subscript) and isinstance(g.slice, ast.Constant) and nf.config_key(g.value) == 'answer_shape_mismatch':
+        return 'answer_shape_mismatch.' + str(g.slice.value)
+    return None
+
+
+def eval_guard(g, env):
+    if isinstance(g, ast.UnaryOp) and isinstance(g.op, ast.Not):
+        v = eval_guard(g.operand, env)
+        return None if v is None else (not v)
+    if isinstance(g, ast.BoolOp):
+        vals = [eval_guard(v, env) for v in g.values]
+        if any(v is None for v in vals):
+            return None
+        return all(vals) if isinstance(g.op, ast.And) else any(vals)
+    if isinstance(g, ast.Constant) and isinstance(g.value, bool):
+        return g.value
+    k = switch_key(g)
+    if k is not None and k in env:
+        return env[k]
+    return None
+
+
+def leaf_kind(leaf, errname):
+    if leaf.kind == 'raise':
+        if leaf.expr is None or is_name(leaf.expr, errname):
+            return 'raise'
+        return 'raise-other:%s' % nf.exc_class_name(leaf.expr)
+    if leaf.kind == 'ret':
+        d = dict_items(leaf.expr)
+        if d is not None and is_zero_result(leaf.expr):
+            msg = d.get('msg')
+            if msg is None or (isinstance(msg, ast.Constant) and msg.value == ''):
+                return 'zero-silent'
+            if errname and mentions(msg, errname):
+                return 'zero-message'
+            return 'zero-othermsg'
+        return 'ret-other'
+    return 'fall'
+
+
+def d3_policy(ctx, idx):
+    r = ctx.rule('D3.POLICY', 'MatrixGrader.check_response: handler order and the mismatch-policy truth table', floor=13)
+    with r:
+        fi = idx.func(MGQ + '.check_response')
+        trs = lib.stmts_in(fi.node, ast.Try)
+        if len(trs) != 1:
+            raise AnalysisError('MatrixGrader.check_response: expected one try')
+        tr = trs[0]
+        sup = [c for c in lib.calls_named(fi.node, 'check_response') if isinstance(c.func, ast.Attribute)]
+        if not sup or not all(lib.enclosing_try(c) is tr or tr in lib.enclosing_trys(c) for c in sup):
+            r.violation('MatrixGrader.check_response: guarded evaluation', 'the parent check_response is not called inside the try: shape '
+                        'errors bypass the mismatch policy', fi.loc)
+        SHAPE = 'mitxgraders.helpers.calc.exceptions.MathArrayShapeError'
+        ITE = 'mitxgraders.exceptions.InputTypeError'
+        MAE = 'mitxgraders.helpers.calc.exceptions.MathArrayError'
+        ASE = 'mitxgraders.helpers.calc.exceptions.ArgumentShapeError'
+        handlers = []
+        for h in tr.handlers:
+            classes = [_alias(idx, fi.module, n) for n in lib.handler_class_names(h)]
+            handlers.append((h, classes))
+        # order: no handler shadowed by an earlier one
+        shadow = False
+        for i, (h, cl) in enumerate(handlers):
+            for j in range(i):
+                for a in handlers[j][1]:
+                    for b in cl:
+                        ca = idx.classes.get(a)
+                        cb = idx.classes.get(b)
+                        if cb is not None and a in cb.mro and a != b:
+                            shadow = True
+                            r.violation('MatrixGrader.check_response: handler order', 'the handler for %s can never run: the earlier handler '
+                                        'for %s catches it first, so %s follows the wrong policy switch' % (b.split('.')[-1], a.split('.')[-1],
+                                                                                                          b.split('.')[-1]), lib.loc(fi, h))
+        if not shadow:
+            r.ok('MatrixGrader.check_response: handler order', 'no handler is shadowed: %s' % [[c.split('.')[-1] for c in cl] for _, cl in handlers],
+                 lib.loc(fi, tr))
+        table = [(SHAPE, 'shape_errors', 'shape errors of the evaluation (MathArrayShapeError)'),
+                 (ITE, 'answer_shape_mismatch.is_raised', 'answer shape mismatch (InputTypeError)'),
+                 (MAE, None, 'other array errors (MathArrayError)'), (ASE, None, 'function argument shape errors (ArgumentShapeError)')]
+        for cls, switch, what in table:
+            hs = [(h, cl) for h, cl in handlers if cls in cl]
+            if not hs:
+                # caught by a superclass handler? then that handler's policy applies
+                sup_h = [(h, cl) for h, cl in handlers if any(c in (idx.classes[cls].mro if cls in idx.classes else []) for c in cl)]
+                if switch is not None:
+                    r.violation('MatrixGrader.check_response: %s' % what, 'no handler of its own: the %s switch no longer decides between '
+                                'raising and grading the answer wrong' % switch, lib.loc(fi, tr), expected='except %s' % cls.split('.')[-1])
+                elif not sup_h:
+                    r.violation('MatrixGrader.check_response: %s' % what, 'not handled: suppress_matrix_messages no longer silences it',
+                                lib.loc(fi, tr))
+                else:
+                    hs = sup_h[:1]
+            if not hs:
+                continue
+            h, cl = hs[0]
+            paths = nf.decision_paths(h.body)
+            combos = [(s, p) for s in (True, False) for p in ((True, False) if switch else (None,))]
+            allok = True
+            for s, pol in combos:
+                env = {'suppress_matrix_messages': s}
+                if switch:
+                    env[switch] = pol
+                taken = []
+                for p in paths:
+                    vals = [eval_guard(g, env) for g in p.guards]
+                    if any(v is None for v in vals):
+                        taken = None
+                        break
+                    if all(vals):
+                        taken.append(p)
+                setting = 'suppress_matrix_messages=%s%s' % (s, ', %s=%s' % (switch, pol) if switch else '')
+                construct = 'MatrixGrader.check_response: %s [%s]' % (what, setting)
+                if taken is None or len(taken) != 1:
+                    allok = False
+                    r.undecided(construct, 'handler guards are not a function of the policy switches', lib.loc(fi, h))
+                    continue
+                got = leaf_kind(taken[0].leaf, h.name)
+                want = 'zero-silent' if s else ('raise' if (pol or switch is None) else 'zero-message')
+                where = lib.loc(fi, taken[0].leaf.stmt or h)
+                text = {'zero-silent': 'graded wrong without a message', 'raise': 'the error is re-raised to the student',
+                        'zero-message': 'graded wrong with the error text as message', 'fall': 'the handler falls through (no result)',
+                        'ret-other': 'a result that is not a zero result is returned', 'zero-othermsg': 'graded wrong with another message'}
+                if got == want:
+                    r.ok(construct, text[want], where)
+                else:
+                    allok = False
+                    r.violation(construct, 'with %s: expected "%s" but %s' % (setting, text[want], text.get(got, got)), where,
+                                expected=text[want], found=text.get(got, got))
+
+
+def d3_shape_validation(ctx, idx):
+    r = ctx.rule('D3.SHAPECHECK', 'validate_student_input_shape raises InputTypeError iff the shapes differ; comparers hand it (student, shape)', floor=5)
+    with r:
+        fi = idx.func(MGQ + '.validate_student_input_shape')
+        SI, ES = fi.params[0], fi.params[1]
+        paths = ret_paths(fi)
+        n_ret = n_raise = 0
+        local = None
+        for p in paths:
+            where = lib.loc(fi, p.leaf.stmt) if p.leaf.stmt is not None else fi.loc
+            eq = ne = None
+            for g in p.guards:
+                b = nf.match('_A == _B', g)
+                if b is not None and (is_name(b['_A'], ES) or is_name(b['_B'], ES)):
+                    eq = b
+                b = nf.match('_A != _B', g)
+                if b is not None and (is_name(b['_A'], ES) or is_name(b['_B'], ES)):
+                    ne = b
+            if eq is None and ne is None:
+                r.undecided('validate_student_input_shape', 'a path does not test the expected shape', where)
+                continue
+            b = eq or ne
+            other = b['_B'] if is_name(b['_A'], ES) else b['_A']
+            if isinstance(other, ast.Name):
+                local = other.id
+            if eq is not None:
+                n_ret += 1
+                if p.leaf.kind != 'ret':
+                    r.violation('validate_student_input_shape: equal shapes', 'a submission of the expected shape %s' %
+                                ('raises %s' % nf.exc_class_name(p.leaf.expr) if p.leaf.kind == 'raise' else 'falls through'), where,
+                                expected='return True')
+            else:
+                n_raise += 1
+                if p.leaf.kind != 'raise':
+                    r.violation('validate_student_input_shape: different shapes', 'a submission of another shape is accepted (the function '
+                                '%s): it is compared instead of being reported as a shape mismatch' %
+                                ('returns `%s`' % short(p.leaf.expr) if p.leaf.kind == 'ret' else 'falls through'), where,
+                                expected='raise InputTypeError')
+                elif nf.exc_class_name(p.leaf.expr) != 'InputTypeError':
+                    r.violation('validate_student_input_shape: different shapes', 'a shape mismatch raises %s instead of InputTypeError: the '
+                                'answer_shape_mismatch policy of MatrixGrader does not apply to it' % nf.exc_class_name(p.leaf.expr), where,
+                                expected='InputTypeError', found=nf.exc_class_name(p.leaf.expr))
+        if n_ret and n_raise and not any(o.status == 'violation' for o in r.obligations):
+            r.ok('validate_student_input_shape: equal shapes', 'returns', fi.loc)
+            r.ok('validate_student_input_shape: different shapes', '%d raising path(s), all InputTypeError' % n_raise, fi.loc)
+        elif not (n_ret and n_raise) and not r.obligations:
+            raise AnalysisError('validate_student_input_shape: shape test not found')
+        # the shape compared is the submission's
+        if local is not None:
+            vals = lib.assigned_value(fi.node, local)
+            ok = bool(vals) and all((nf.match('_S.shape', v) is not None and is_name(nf.match('_S.shape', v)['_S'], SI))
+                                    or nf.match('tuple()', v) is not None or nf.match('()', v) is not None for v in vals)
+            r.check(ok, 'validate_student_input_shape: input shape', '%s.shape (or () for numbers)' % SI,
+                    'the shape compared with the expected one is `%s`, not the submission\'s' % ', '.join(short(v) for v in vals), fi.loc)
+        else:
+            raise AnalysisError('validate_student_input_shape: compared shape is not a local')
+        # EqualityComparer.validate
+        ev = idx.func(C + 'EqualityComparer.validate')
+        E, S, U = ev.params[0], ev.params[1], ev.params[2]
+        calls = [c for c in lib.calls_named(ev.node, 'validate_shape') if isinstance(c.func, ast.Attribute) and is_name(c.func.value, U)]
+        if not calls:
+            r.violation('EqualityComparer.validate', 'utils.validate_shape is never called: MatrixGrader answers are compared without a shape check',
+                        ev.loc)
+        else:
+            c = calls[0]
+            test = None
+            for a in ancestors(c):
+                if isinstance(a, ast.If):
+                    test = a
+                    break
+            tok = test is not None and nf.match("hasattr(_U, 'validate_shape')", nf.canon(test.test)) is not None \
+                and any(c is x for s in test.body for x in ast.walk(s))
+            shape = lib.inline_locals(c.args[1], ev.node) if len(c.args) == 2 else None
+            sb = None
+            if shape is not None:
+                sb = nf.match('tuple() if isinstance(_E, Number) else _E.shape', shape) or nf.match('() if isinstance(_E, Number) else _E.shape', shape) \
+                    or nf.match('_E.shape if not isinstance(_E, Number) else tuple()', shape)
+            good = tok and len(c.args) == 2 and is_name(c.args[0], S) and sb is not None and is_name(sb['_E'], E)
+            if good:
+                r.ok('EqualityComparer.validate', 'validate_shape(student, shape of expected) whenever utils offers it', lib.loc(ev, c))
+            elif len(c.args) == 2 and is_name(c.args[0], E):
+                r.violation('EqualityComparer.validate', 'the expected value is validated against its own shape (`%s`): the submission\'s shape is '
+                            'never checked' % short(c), lib.loc(ev, c), expected='utils.validate_shape(%s, shape)' % S)
+            elif not tok and test is not None:
+                r.violation('EqualityComparer.validate', 'the validation runs under `%s`, not whenever utils offers validate_shape' % short(test.test),
+                            lib.loc(ev, c))
+            else:
+                r.undecided('EqualityComparer.validate', 'call `%s` not recognised' % short(c), lib.loc(ev, c))
+        # wiring of Utils.validate_shape
+        gu = idx.func(MGQ + '.get_comparer_utils')
+        inner = idx.funcs.get(gu.qualname + '.<locals>._validate_shape')
+        ucall = [c for c in lib.calls_named(gu.node, 'Utils')]
+        if inner is None or not ucall:
+            cands = [c for c in walk_all(gu.node) if isinstance(c, ast.Call) and nf.callee_name(c) == 'validate_student_input_shape']
+            if not cands:
+                raise AnalysisError('get_comparer_utils: wiring of validate_shape not found')
+            raise AnalysisError('get_comparer_utils: helper layout changed')
+        kw = lib.get_kw(ucall[0], 'validate_shape', 2)
+        wired = isinstance(kw, ast.Name) and kw.id == inner.name
+        vc = [c for c in lib.calls_named(inner.node, 'validate_student_input_shape')]
+        if not vc:
+            raise AnalysisError('_validate_shape no longer calls validate_student_input_shape')
+        a = vc[0].args
+        ip = inner.params
+        good = wired and len(a) >= 2 and len(ip) >= 2 and is_name(a[0], ip[0]) and is_name(a[1], ip[1]) \
+            and any(isinstance(x.value, ast.Call) and x.value is vc[0] for x in lib.returns_of(inner.node))
+        if good:
+            r.ok('MatrixGrader.get_comparer_utils: validate_shape', 'forwards (student, shape) to validate_student_input_shape', lib.loc(gu, vc[0]))
+        elif len(a) >= 2 and len(ip) >= 2 and is_name(a[0], ip[1]) and is_name(a[1], ip[0]):
+            r.violation('MatrixGrader.get_comparer_utils: validate_shape', 'student input and expected shape are exchanged in the call `%s`'
+                        % short(vc[0]), lib.loc(gu, vc[0]))
+        elif not wired:
+            r.violation('MatrixGrader.get_comparer_utils: validate_shape', 'Utils.validate_shape is bound to `%s` instead of the validating helper'
+                        % (short(kw) if kw is not None else 'nothing'), lib.loc(gu, ucall[0]))
+        else:
+            r.violation('MatrixGrader.get_comparer_utils: validate_shape', 'the helper does not return validate_student_input_shape(student, shape, detail)',
+                        lib.loc(gu, vc[0]))
+
+
+# ----------------------------------------------------------------------------- D4 numeric type-state
+NARROWING = {'real', 'imag', 'abs', 'absolute', 'norm', 'len', 'angle', 'isreal', 'iscomplex', 'isnan', 'isinf', 'isfinite',
+             'within_tolerance', 'is_nearly_zero', 'isinstance', 'hasattr', 'all', 'any', 'allclose', 'isclose', 'array_equal',
+             'matrix_rank', 'count_nonzero', 'bool', 'is_vector', 'are_same_length_vectors', 'is_square'}
+PRESERVING = {'sqrt', 'sum', 'mean', 'array', 'asarray', 'flatten', 'transpose', 'item', 'square', 'conj', 'conjugate', 'dot',
+              'vstack', 'hstack', 'copy', 'ravel', 'reshape', 'ones', 'list', 'tuple', 'zip', 'enumerate', 'sorted', 'reversed', 'max', 'min'}
+REAL_ATTRS = {'real', 'imag', 'size', 'shape', 'ndim', 'dtype'}
+ORDER = {'NA': 0, 'REAL': 1, 'UNK': 2, 'T': 3}
+
+# positions of the parameters that carry the *student's* evaluation (self excluded for methods is handled by name lookup)
+D4_SOURCES = {
+    C + 'between_comparer': [1], C + 'congruence_comparer': [1], C + 'eigenvector_comparer': [1], C + 'vector_span_comparer': [1],
+    C + 'vector_phase_comparer': [1], C + 'EqualityComparer.__call__': [2], C + 'EqualityComparer.validate': [1],
+    C + 'MatrixEntryComparer.__call__': [2], C + 'MatrixEntryComparer.validate': [1],
+    LC + '.__call__': [2], LC + '.check_comparing_zero': [1],
+    LMOD + '.get_linear_fit_error': [0, 1], LMOD + '.get_proportional_fit_error': [0, 1], LMOD + '.get_offset_fit_error': [0, 1],
+    LMOD + '.get_equals_fit_error': [0, 1],
+    NZ: [0, 2], 'mitxgraders.helpers.calc.mathfuncs.within_tolerance': [0, 1],
+    MGQ + '.validate_student_input_shape': [0],
+}
+
+
+class TypeState(object):
+    def __init__(self, fi, sources):
+        self.fi = fi
+        self.sources = set(sources)
+        self.assign = {}
+        for n in walk_all(fi.node):
+            if isinstance(n, ast.Assign):
+                for t in n.targets:
+                    self._bind(t, n.value, False)
+            elif isinstance(n, ast.AugAssign) and isinstance(n.target, ast.Name):
+                self.assign.setdefault(n.target.id, []).append(('val', n.value))
+            elif isinstance(n, (ast.For, ast.comprehension)):
+                self._bind(n.target, n.iter, True)
+        self._busy = set()
+
+    def _bind(self, target, value, elem):
+        for x in ast.walk(target):
+            if isinstance(x, ast.Name):
+                self.assign.setdefault(x.id, []).append(('val', value))
+
+    @staticmethod
+    def join(*xs):
+        return max(xs, key=lambda s: ORDER[s]) if xs else 'NA'
+
+    def ts(self, e):
+        if e is None or isinstance(e, ast.Constant):
+            return 'NA'
+        if isinstance(e, ast.Name):
+            if e.id in self.sources:
+                return 'T'
+            if e.id in self._busy:
+                return 'NA'
+            vals = self.assign.get(e.id)
+            if not vals:
+                return 'NA'
+            self._busy.add(e.id)
+            try:
+                return self.join(*[self.ts(v) for _, v in vals])
+            finally:
+                self._busy.discard(e.id)
+        if isinstance(e, (ast.Compare, ast.BoolOp)) or (isinstance(e, ast.UnaryOp) and isinstance(e.op, ast.Not)):
+            return 'REAL' if self._student(e) else 'NA'
+        if isinstance(e, ast.UnaryOp):
+            return self.ts(e.operand)
+        if isinstance(e, ast.BinOp):
+            return self.join(self.ts(e.left), self.ts(e.right))
+        if isinstance(e, ast.IfExp):
+            return self.join(self.ts(e.body), self.ts(e.orelse))
+        if isinstance(e, ast.Attribute):
+            base = self.ts(e.value)
+            if base == 'NA':
+                return 'NA'
+            if e.attr in REAL_ATTRS:
+                return 'REAL'
+            if e.attr == 'T':
+                return base
+            return 'UNK'
+        if isinstance(e, ast.Subscript):
+            if isinstance(e.value, ast.Call) and nf.callee_name(e.value) == 'lstsq':
+                k = nf.const_value(e.slice)
+                inner = self.join(*[self.ts(a) for a in e.value.args])
+                if inner == 'NA':
+                    return 'NA'
+                return inner if k == 0 else 'REAL'
+            return self.ts(e.value)
+        if isinstance(e, (ast.Tuple, ast.List, ast.Set)):
+            return self.join(*[self.ts(x) for x in e.elts])
+        if isinstance(e, (ast.ListComp, ast.GeneratorExp, ast.SetComp)):
+            return self.ts(e.elt)
+        if isinstance(e, ast.Starred):
+            return self.ts(e.value)
+        if isinstance(e, ast.Call):
+            args = list(e.args) + [k.value for k in e.keywords]
+            recv = e.func.value if isinstance(e.func, ast.Attribute) else None
+            inner = self.join(*([self.ts(a) for a in args] + ([self.ts(recv)] if recv is not None else [])))
+            if inner == 'NA':
+                return 'NA'
+            name = nf.callee_name(e)
+            if name in NARROWING:
+                return 'REAL'
+            if name in PRESERVING:
+                return inner
+            return 'UNK' if inner != 'REAL' else 'REAL'
+        if isinstance(e, (ast.Dict, ast.Lambda, ast.JoinedStr)):
+            return 'NA'
+        return 'UNK' if self._student(e) else 'NA'
+
+    def _student(self, e):
+        return any(isinstance(x, ast.Name) and self.ts(x) != 'NA' for x in ast.walk(e))
+
+
+def complex_refused_before(fi, name, cmp_node):
+    """A dominating `if isinstance(name, complex) [or ...]: raise` narrows the type of `name`."""
+    cfg = cfg_of(fi.node)
+    try:
+        targets = lib.cfg_nodes_for(cfg, cmp_node)
+    except AnalysisError:
+        return False
+    for n in cfg.nodes:
+        if n.kind == 'test' and isinstance(n.ast, ast.If):
+            t = nf.canon(n.ast.test)
+            for d in nf.disjuncts(t):
+                b = nf.match('isinstance(_V, complex)', d)
+                if b is not None and is_name(b['_V'], name):
+                    branch = [x for x, lab in n.succs if lab == 'true']
+                    if branch and cfg.always_raises_from(branch) and cfg.dominates([n], targets):
+                        return True
+    return False
+
+
+def d4_typestate(ctx, idx):
+    r = ctx.rule('D4.KIND', 'no ordering comparison on a student-derived value that may still be complex-typed', floor=4)
+    with r:
+        scope = []
+        for mname in ('mitxgraders.comparers.comparers', 'mitxgraders.comparers.linear_comparer', 'mitxgraders.comparers.baseclasses',
+                      'mitxgraders.formulagrader.matrixgrader'):
+            m = idx.module(mname)
+            for f in m.all_funcs:
+                if f.outer is None:
+                    scope.append(f)
+        for q in (NZ, 'mitxgraders.helpers.calc.mathfuncs.within_tolerance'):
+            scope.append(idx.func(q))
+        for q in D4_SOURCES:
+            idx.func(q)     # anchors must exist
+        n_cmp = 0
+        for fi in scope:
+            cmps = [n for n in walk_all(fi.node) if isinstance(n, ast.Compare)
+                    and any(isinstance(o, (ast.Lt, ast.LtE, ast.Gt, ast.GtE)) for o in n.ops)]
+            if not cmps:
+                continue
+            pos = D4_SOURCES.get(fi.qualname)
+            if pos is None:
+                # a function of the comparer modules we have no source table for: only parameters named like the student's value
+                srcs = [p for p in fi.all_params if p.startswith('student')]
+                if fi.qualname.startswith('mitxgraders.comparers.') and len(fi.params) >= 3 and not srcs:
+                    r.undecided('%s: ordering comparison' % fi.qualname, 'new function with an ordering comparison and no reviewed source table',
+                                fi.loc)
+                    continue
+            else:
+                srcs = [fi.params[i] for i in pos if i < len(fi.params)]
+                if len(srcs) != len(pos):
+                    raise AnalysisError('%s: signature changed' % fi.qualname)
+            tsa = TypeState(fi, srcs)
+            for c in cmps:
+                n_cmp += 1
+                operands = [c.left] + list(c.comparators)
+                ordered = set()
+                for i, o in enumerate(c.ops):
+                    if isinstance(o, (ast.Lt, ast.LtE, ast.Gt, ast.GtE)):
+                        ordered |= {i, i + 1}
+                states = []
+                for i in sorted(ordered):
+                    st = tsa.ts(operands[i])
+                    if st == 'T' and isinstance(operands[i], ast.Name) and complex_refused_before(fi, operands[i].id, c):
+                        st = 'REAL'
+                    states.append((operands[i], st))
+                construct = '%s: `%s`' % (fi.qualname.replace('mitxgraders.', ''), short(nf.canon(c), 70))
+                where = lib.loc(fi, c)
+                bad = [o for o, st in states if st == 'T']
+                unk = [o for o, st in states if st == 'UNK']
+                if bad:
+                    r.violation(construct, 'the operand `%s` of an ordering comparison is the student\'s evaluation (through type-preserving '
+                                'steps only) and may be complex-typed: the evaluator yields e.g. 5+0j for `5*i/i`, np.isreal tests the value '
+                                'and not the type, and ordering a complex raises TypeError, which the student sees as "Could not check input" '
+                                'instead of a verdict' % short(bad[0]), where, expected='np.real(...) / abs / a norm / isinstance(x, complex) => raise first',
+                                found=short(c))
+                elif unk:
+                    r.undecided(construct, 'operand `%s` derives from the student\'s evaluation through a call the type-state table does not know'
+                                % short(unk[0]), where)
+                elif any(st == 'REAL' for _, st in states):
+                    r.ok(construct, 'student-derived operand narrowed to a real type', where)
+                else:
+                    r.ok(construct, 'no student-derived operand', where, nontrivial=False)
+        if n_cmp == 0:
+            raise AnalysisError('no ordering comparison found in the comparer modules')
+
+
+# ------------------------------------------------------------------------ self-test
+MUTANTS = []
+BENIGN = []
